@@ -57,7 +57,7 @@ def cases(ctx):
             w["case_spelling"] = rng.choice(["dict", "tuple"])
         w["constants"] = {}
         if farmer == "runner" and rng.random() < 0.35:
-            # sow-time constants take precedence over the runner's stored ones (judged through the values)
+            # sow-time constants take precedence over the runner's stored ones, in the values and in the labelling
             w["constants"] = rng.choice([{"kc": 99}, {"extra_c": 7}, {"kc": "override", "k2": 0.5}])
         nset = gens.n_settings(w["combos"], w["cases"])
         c = {"farmer": farmer, "descr": descr, "w": w,
@@ -327,7 +327,7 @@ def run_case(ctx, case):
         if isinstance(out1, xr.DataArray):
             out1, out2 = out1.to_dataset(name="da"), out2.to_dataset(name="da")
         if isinstance(out1, xr.Dataset):
-            d = refmodel.ds_equiv(out2, out1, check_attrs=not w["constants"])
+            d = refmodel.ds_equiv(out2, out1, check_attrs=True)
             if d:
                 bad.append("reaped Dataset differs from the direct run's: " + d)
             else:
@@ -339,12 +339,10 @@ def run_case(ctx, case):
                         bad.append("resource %s recorded in the reaped dataset" % rname)
         else:
             cols = sorted(out2.columns)
-            if w["constants"]:
-                # sow-time constants are judged through the values only (they are not part of the runner's description)
-                pass
-            elif sorted(out1.columns) != cols:
+            # (constants given at the sow call label the rows exactly as constants given to the direct run do)
+            if sorted(out1.columns) != cols:
                 bad.append("reaped DataFrame has columns %s, direct run %s" % (sorted(out1.columns), cols))
-            elif not w["constants"] and Counter(refmodel.df_rows(out1, cols)) != Counter(refmodel.df_rows(out2, cols)):
+            elif Counter(refmodel.df_rows(out1, cols)) != Counter(refmodel.df_rows(out2, cols)):
                 bad.append("reaped DataFrame rows differ from the direct run's")
     # values decode to the right call (not only equal to the twin)
     if err1 is None and isinstance(out1, xr.Dataset) and not bad and case["descr"] != "dataset":
